@@ -304,6 +304,20 @@ class SMI(Machine):
             cands = [b for n, b in self.b.items() if b.kind == 'fn' and (n == fname + '::{closure#0}' or n.endswith('::' + fname + '::{closure#0}'))]
             if len(cands) == 1:
                 return self.run(cands[0], args)
+        mu8 = re.match(r'(?:core::num::<impl u8>|u8)::(is_ascii\w*|to_ascii_\w+|eq_ignore_ascii_case)$', c)
+        if mu8 and isinstance(d0, int) and not isinstance(d0, bool):
+            ch = chr(d0) if d0 < 128 else '\x80'
+            f = mu8.group(1)
+            tbl = {'is_ascii': d0 < 128, 'is_ascii_digit': '0' <= ch <= '9', 'is_ascii_alphabetic': ch.isascii() and ch.isalpha(), 'is_ascii_alphanumeric': ch.isascii() and ch.isalnum(),
+                   'is_ascii_uppercase': 'A' <= ch <= 'Z', 'is_ascii_lowercase': 'a' <= ch <= 'z', 'is_ascii_whitespace': ch in ' \t\n\x0c\r',
+                   'is_ascii_punctuation': ch.isascii() and not ch.isalnum() and not ch.isspace() and ch.isprintable(), 'is_ascii_hexdigit': ch in '0123456789abcdefABCDEF',
+                   'is_ascii_control': d0 < 32 or d0 == 127, 'is_ascii_graphic': 33 <= d0 <= 126}
+            if f in tbl:
+                return bool(tbl[f])
+            if f == 'to_ascii_uppercase':
+                return ord(ch.upper()) if d0 < 128 else d0
+            if f == 'to_ascii_lowercase':
+                return ord(ch.lower()) if d0 < 128 else d0
         mch = re.match(r'(?:core::char::methods::<impl char>|char::methods::<impl char>|char)::(\w+)$', c)
         if mch and isinstance(d0, str) and len(d0) == 1:
             f = mch.group(1)
@@ -575,6 +589,13 @@ class SMI(Machine):
             if meth == 'take':
                 a0.set(NONE())
                 return d0
+            if meth == 'take_if':
+                if some and self.truth(self.call_closure(args[1], [Ref(d0.fields, 0)])):
+                    a0.set(NONE())
+                    return d0
+                return NONE()
+            if meth == 'is_some_or' or meth == 'is_none_or':
+                return self.call_closure(args[1], [v]) if some else True
             if meth == 'transpose':
                 if not some:
                     return OK(NONE())
@@ -763,7 +784,7 @@ class SMI(Machine):
             return RString(self.rope_join(parts))
 
         # --- Vec / HashMap / Atomic
-        if c in ('Vec::new', 'Vec::with_capacity'):
+        if c in ('Vec::new', 'Vec::with_capacity', 'VecDeque::new', 'VecDeque::with_capacity'):
             return []
         if c in ('String::new', 'String::with_capacity'):
             return RString('')
@@ -886,6 +907,34 @@ class SMI(Machine):
                 d0.extend(o)
                 del o[:]
                 return ()
+            if meth in ('windows', 'chunks', 'chunks_exact'):
+                k = args[1]
+                if k == 0:
+                    raise Panic('window / chunk size must be non-zero')
+                if meth == 'windows':
+                    return It(iter([d0[i:i + k] for i in range(0, max(0, len(d0) - k + 1))]))
+                out_ = [d0[i:i + k] for i in range(0, len(d0), k)]
+                if meth == 'chunks_exact':
+                    out_ = [c_ for c_ in out_ if len(c_) == k]
+                return It(iter(out_))
+            if meth == 'map' and re.search(r'\[.*; \d+\]', c0):
+                return [self.call_closure(args[1], [x]) for x in d0]
+            if meth in ('push_back',):
+                d0.append(args[1])
+                return ()
+            if meth in ('push_front',):
+                d0.insert(0, args[1])
+                return ()
+            if meth == 'pop_front':
+                return opt(d0.pop(0) if d0 else None)
+            if meth == 'pop_back':
+                return opt(d0.pop() if d0 else None)
+            if meth in ('front', 'back'):
+                return SOME(Ref(d0, 0 if meth == 'front' else len(d0) - 1)) if d0 else NONE()
+            if meth in ('starts_with', 'ends_with') and isinstance(deref(args[1]), list):
+                o = deref(args[1])
+                seg = d0[:len(o)] if meth == 'starts_with' else d0[len(d0) - len(o):]
+                return len(o) <= len(d0) and all(self.truth(struct_eq(x, y)) for x, y in zip(seg, o))
             if meth == 'split_first':
                 return SOME([Ref(d0, 0), d0[1:]]) if d0 else NONE()
             if meth == 'split_last':
@@ -1148,7 +1197,8 @@ class SMI(Machine):
         if meth == 'next':
             return opt(it.next())
         if meth == 'next_back' or meth == 'last':
-            items = list(it.gen)
+            items = it.peeked + list(it.gen)
+            it.peeked = []
             if not items:
                 return NONE()
             last = items.pop()
@@ -1304,6 +1354,15 @@ class SMI(Machine):
             return It(iter(items[::-1]))
         if meth == 'peekable' or meth == 'by_ref' or meth == 'fuse':
             return it
+        if meth in ('peek', 'peek_mut'):
+            x = it.peek()
+            return NONE() if x is None else SOME(Ref(it.peeked, 0))
+        if meth in ('next_if', 'next_if_eq'):
+            x = it.peek()
+            if x is None:
+                return NONE()
+            ok_ = self.truth(self.call_closure(args[1], [Ref(it.peeked, 0)])) if meth == 'next_if' else self.truth(struct_eq(x, args[1]))
+            return SOME(it.next()) if ok_ else NONE()
         if meth == 'for_each':
             while True:
                 x = it.next()
